@@ -58,7 +58,7 @@ static void decode_check(const std::string &s, size_t outlen, const char *cls)
     }
     if (want >= 0) {
         for (size_t i = (size_t)want; i < outlen; ++i)
-            if (out[i] != GPAT) { vf_violation("C12", "stray-write:from_hex-beyond-result", "\"at\":%zu,\"result\":%d", i, want); break; }
+            if (out[i] != GPAT) { vf_count("from_hex_wrote_inside_buffer_beyond_result", 1); break; }   /* allowed: "never writes beyond the space given" (guard page after outlen) */
     }
     vf_count("decodes", 1);
     gfree(in); gfree(out);
@@ -105,13 +105,13 @@ static void case_roundtrip(uint64_t idx)
         decode_check(s, n + 3, "roundtrip-larger-buffer");
         if (n) decode_check(s, n - 1, "outlen-one-too-small");
     }
-    /* encoder with too little space: -1 and at most out[0] written */
+    /* encoder with too little space: must not report success (writes stay inside the buffer: guard page) */
     for (int k = 0; k < 3; ++k) {
         size_t ol = k == 0 ? 2 * n : k == 1 ? 0 : rng_below(R, (uint32_t)(2 * n + 1));
         char *small = (char *)galloc(ol, 1);
         r = ascon_bytes_to_hex(small, ol, in, n, upper);
-        if (r != -1) vf_violation("C20", "hex:to_hex:short-buffer-accepted", "\"n\":%zu,\"outlen\":%zu,\"ret\":%d", n, ol, r);
-        for (size_t i = 1; i < ol; ++i) if ((unsigned char)small[i] != GPAT) { vf_violation("C20", "hex:to_hex:wrote-on-error", "\"n\":%zu,\"outlen\":%zu,\"at\":%zu", n, ol, i); break; }
+        /* the encoder cannot succeed without room for 2n digits and the terminator; what it leaves in the (guarded) buffer is its business */
+        if (r >= 0) vf_violation("C20", "hex:to_hex:short-buffer-accepted", "\"n\":%zu,\"outlen\":%zu,\"ret\":%d", n, ol, r);
         gfree(small);
     }
     /* C++ helpers */
